@@ -106,7 +106,8 @@ where
                 IndexData::I18NString(strings) => {
                     for _ in 0..entry.num_items {
                         let (rest, raw_string) = complete::take_till(|item| item == 0)(remaining)?;
-                        remaining = rest;
+                        // the null byte is still in there.. we need to cut it out.
+                        remaining = rest.get(1..).ok_or_else(unterminated_string)?;
                         let string = String::from_utf8_lossy(raw_string).to_string();
                         strings.push(string);
                     }
